@@ -96,12 +96,16 @@ CRowOK(p, m, row) ==
        ELSE LET rec == ErrorRecord(p, m, row[1], o) IN
             "errrec" \in Aspects => row[3] = <<rec.status, rec.arity, rec.types>>
 
+(* programs with real classes cannot create objects of abstract classes: their tables range over the    *)
+(* tuples of concrete classes (event field "concrete")                                                 *)
+IsConcreteOnly(ev) == "concrete" \in DOMAIN ev /\ ev.concrete
+ConcreteTuples(p, m) == {t \in AllTuples(p, m) : \A i \in DOMAIN t : t[i] \notin inst[p].abs}
 TCTable ==
     /\ KeepLay
     /\ IsEvent("ctable")
     /\ ~dead /\ fresh[Ev.p] /\ inst[Ev.p].ok /\ Ev.m \in DOMAIN inst[Ev.p].mvp
     /\ handler[Ev.p] = "throw"
-    /\ RowSet(Ev.rows) = AllTuples(Ev.p, Ev.m)
+    /\ RowSet(Ev.rows) = (IF IsConcreteOnly(Ev) THEN ConcreteTuples(Ev.p, Ev.m) ELSE AllTuples(Ev.p, Ev.m))
     /\ \A i \in DOMAIN Ev.rows : CRowOK(Ev.p, Ev.m, Ev.rows[i])
     /\ obs' = [k |-> "table"]
     /\ UNCHANGED <<classes, methods, defs, inst, fresh, handler, vps, dead>>
@@ -329,7 +333,8 @@ TNext ==
     /\ KeepLay
     /\ IsEvent("next")
     /\ ~dead /\ fresh[Ev.p] /\ inst[Ev.p].ok /\ Ev.m \in DOMAIN inst[Ev.p].D
-    /\ {Ev.rows[i][1] : i \in DOMAIN Ev.rows} = {x.d : x \in inst[Ev.p].D[Ev.m]}
+    /\ {Ev.rows[i][1] : i \in DOMAIN Ev.rows} =
+          {x.d : x \in {y \in inst[Ev.p].D[Ev.m] : IsConcreteOnly(Ev) => \A i \in DOMAIN y.vp : y.vp[i] \notin inst[Ev.p].abs}}
     /\ \A i \in DOMAIN Ev.rows : /\ Ev.rows[i][2] = NextOf(Ev.p, Ev.m, Ev.rows[i][1])   \* by calling through it
                                 /\ Ev.rows[i][3] = NextOf(Ev.p, Ev.m, Ev.rows[i][1])   \* by pointer identity
     /\ obs' = [k |-> "next"]
